@@ -192,6 +192,17 @@ func TestC04(t *testing.T) {
 		}
 		synctest.Test(t, func(t *testing.T) { c04Run(t, run, sc, run.Rand(i)) })
 	}
+	// "never on the order of the commands that produced that set" includes commands that overlap: a
+	// command on A that waits long for its targets while A moves to another host and B takes the old
+	// one (the scenario C05 uses for ownership); afterwards each host is answered by the service the
+	// acknowledged commands bound to it
+	for k := 0; k < run.N(12, 300); k++ {
+		desc := map[string]any{"idx": k, "kind": "slow-command-overlapping-a-host-move"}
+		if !run.Mine(len(scs)+k, desc) {
+			continue
+		}
+		synctest.Test(t, func(t *testing.T) { c05Overlap(t, run, k, run.Rand(len(scs)+k)) })
+	}
 }
 
 func c04Matrix(w *World, tag string) map[string]string {
